@@ -86,6 +86,7 @@ class DocEngine:
         self.other = None  # C13: a second document (merge source)
         self.c13_inserted = []
         self.c13_latest = {}
+        self.c13_display = {}  # table index -> last flag given to set_table_displayed
         self.shadow = None  # the original left behind by clone_swap
         self.twin = None  # C10: (DocSUT) the other twin
         self.n_twin_ops = 0
@@ -169,7 +170,8 @@ class DocEngine:
                        ("save", 1.5 if self.n_saves < cfg["max_saves"] else 0), ("reopen", 1.5 if self._reopenable() else 0)]
         if self.prop == "C13":
             weights = [("ins_style", 9), ("ins_style_other", 3 if self.other is not None else 0), ("open_other", 1.5 if self.other is None else 0.3),
-                       ("merge", 2.5 if self.other is not None else 0), ("page_break_style", 1), ("table_displayed", 1 if self._doc_type() == "spreadsheet" else 0),
+                       ("merge", 2.5 if self.other is not None else 0), ("page_break_style", 1), ("table_displayed", 1.5 if self._doc_type() == "spreadsheet" else 0),
+                       ("clone_swap", 1),
                        ("relookup", 2), ("touch", 1), ("edit", 1), ("save", 2.5 if self.n_saves < cfg["max_saves"] else 0), ("reopen", 3 if self._reopenable() else 0)]
         if self.prop == "C11":
             weights = [("touch", 10 * cfg["p_touch"]), ("edit", 3), ("rich_para", 6), ("add_file", 1), ("set_part", 1.5), ("save_set", 10 * cfg["p_save"] if self.n_saves < cfg["max_saves"] else 0),
@@ -250,9 +252,12 @@ class DocEngine:
             if dt:
                 op["dt"] = dt
         elif name == "open_other":
-            op["source"] = rng.choice(["template:text", "template:spreadsheet", "sample:lpod_styles.odt", "sample:span_style.odt", "sample:example.odt", "sample:styled_table.ods", "sample:example.odp"], "osrc")
+            op["source"] = rng.choice(["template:text", "template:spreadsheet", "sample:lpod_styles.odt", "sample:span_style.odt", "sample:example.odt", "sample:styled_table.ods", "sample:example.odp",
+                                       "sample:issue_28_pretty.odt", "sample:simple_table.ods", "sample:minimal_hidden.ods"], "osrc")
         elif name == "table_displayed":
             op["displayed"] = rng.chance(0.5, "disp")
+            op["table"] = rng.randint(0, 2, "tdtable")
+            op["times"] = rng.choice([1, 1, 2, 4, 12], "tdtimes")  # (generated style names: many in a row)
         elif name == "read":
             k = rng.choice([1, 1, 2, 3, 5], "nreads")
             # exports and string conversions carry the process-global context: drawn more often
@@ -1353,29 +1358,43 @@ class DocEngine:
         feats = self._feats()
         try:
             tables = doc.body.get_tables()
-            if not tables:
-                return []
-            before = doc_styles.population(doc)
-            doc.set_table_displayed(0, op["displayed"])
-            after = doc_styles.population(doc)
-        except Exception as e:
-            return [Violation("C13", "set_table_displayed-raises", "table_displayed", feats, type(e).__name__, f"{type(e).__name__}: {e}")]
-        st.touched |= {"content.xml", "styles.xml"}
-        self._outcome = "table_displayed"
-        for k, v in after.items():
-            if len(v) > 1 and before.get(k) != v:
-                return [Violation("C13", "duplicate", "table_displayed", feats, None, f"{len(v)} definitions of {k}")]
-        for k, v in before.items():
-            if after.get(k) != v:
-                return [Violation("C13", "other-style-changed", "table_displayed", feats, None, f"{k} changed")]
-        name = doc.body.get_tables()[0].style
-        got = doc.get_style("table", name)
-        if got is None:
-            return [Violation("C13", "lookup-misses", "table_displayed", feats, None, f"table style {name!r} not found")]
-        want = "true" if op["displayed"] else "false"
-        props = got.get_properties() or {}
-        if props.get("table:display") != want:
-            return [Violation("C13", "table-display-not-set", "table_displayed", feats, None, f"table:display={props.get('table:display')!r}, expected {want!r}")]
+        except Exception:
+            return []
+        if not tables:
+            return []
+        ti = op.get("table", 0) % len(tables)
+        flag = op["displayed"]
+        for rep in range(op.get("times", 1)):
+            try:
+                before = doc_styles.population(doc)
+                doc.set_table_displayed(ti, flag)
+                after = doc_styles.population(doc)
+            except Exception as e:
+                return [Violation("C13", "set_table_displayed-raises", "table_displayed", feats, type(e).__name__, f"{type(e).__name__}: {e}")]
+            st.touched |= {"content.xml", "styles.xml"}
+            self._outcome = "table_displayed"
+            self.c13_display[ti] = flag
+            f = feats + (["repeated"] if rep else [])
+            for k, v in after.items():
+                if len(v) > 1 and before.get(k) != v:
+                    return [Violation("C13", "duplicate", "table_displayed", f, None, f"{len(v)} definitions of {k}")]
+            for k, v in before.items():
+                if after.get(k) != v:
+                    return [Violation("C13", "other-style-changed", "table_displayed", f, None, f"{k} changed")]
+            # every table set so far still shows what it was told to (each has its own style)
+            tabs = doc.body.get_tables()
+            for j, want_flag in sorted(self.c13_display.items()):
+                if j >= len(tabs):
+                    continue
+                name = tabs[j].style
+                got = doc.get_style("table", name)
+                if got is None:
+                    return [Violation("C13", "lookup-misses", "table_displayed", f, None, f"style {name!r} of table #{j} not found")]
+                props = got.get_properties() or {}
+                if props.get("table:display") != ("true" if want_flag else "false"):
+                    return [Violation("C13", "table-display-not-set", "table_displayed", f + (["other_table"] if j != ti else []), None,
+                                      f"table #{j} (style {name!r}) has table:display={props.get('table:display')!r}, it was set to {want_flag}")]
+            flag = not flag
         return []
 
     def _op_relookup(self, op):
@@ -1504,6 +1523,9 @@ class DocEngine:
         self.sut.store = new
         self.sut.src = {"kind": "clone", "path": None, "packaging": "zip"}
         self.flags.add("cloned")
+        if self.prop == "C13":
+            # the clone holds the same styles: everything inserted so far is found in it
+            return self._op_relookup(op)
         return []
 
     def _op_save_other(self, op):
@@ -1805,6 +1827,7 @@ class DocEngine:
         if self.prop == "C13":
             self.flags.add("reopened")
             self.c13_latest = dict(art.get("c13_latest", {}))  # what had been inserted when that artefact was written
+            self.c13_display = {}
             return self._op_relookup(op)
         self.stats.probe("env:reopen-" + how)
         if how in ("folder", "folderpath") and op.get("salt"):
